@@ -179,7 +179,6 @@ theorem applyDelay_zero_id (s : TS K m) (h2 : 2 ≤ s.samples.length) (hs : Sort
         · intro j hj1 hj2
           simp only [Vector.getElem_toList]
           rw [interpRow_selectCols cols samples hl _ _ j hj1, interpRow_at_sample h2 hs i h2']
-          rfl
       rw [hrow]
 
 /-- `apply_time_window` keeps exactly the samples with `min_t ≤ t ≤ max_t` (and the signal mapping). -/
